@@ -1379,17 +1379,22 @@ def target_worker_thread(host: str, port: int, shared_aconf: AuditConf) -> Tuple
     out = OutputBuffer()
     out.verbose = shared_aconf.verbose
     my_aconf = copy.deepcopy(shared_aconf)
-    my_aconf.host = host
-    my_aconf.port = port
 
     # If we're outputting JSON, turn off colors and ensure 'info' level messages go through.
     if my_aconf.json:
         out.json = True
         out.use_colors = False
 
-    out.v("Running against: %s:%d..." % (my_aconf.host, my_aconf.port), write_now=True)
     try:
+        # Setting the port validates it.  An invalid entry in the target list must only fail this target, not the entire scan.
+        my_aconf.host = host
+        my_aconf.port = port
+
+        out.v("Running against: %s:%d..." % (my_aconf.host, my_aconf.port), write_now=True)
         ret = audit(out, my_aconf, print_target=True)
+        string_output = out.get_buffer()
+    except SystemExit as e:  # Some low-level functions call sys.exit() upon unrecoverable errors (i.e.: SSH_Socket.read_packet()).  During a multi-target scan, this must only end the scan of the current target.
+        ret = e.code if isinstance(e.code, int) else exitcodes.UNKNOWN_ERROR
         string_output = out.get_buffer()
     except Exception:
         ret = -1
